@@ -524,8 +524,20 @@ def run(rep, prog, tier):
     n0 = len(rep.obls)
     from rules import c02, c03, c04, c05, c07, c15
     counts = {}
+    # module-level helpers the one-population sampling methods call (a memoised table they share with the multi-population
+    # methods, say) belong to the one-population path as well
+    helpers = set()
+    sm = prog.mod('dadi.Spectrum_mod')
+    top_funcs = {n.name for n in sm.tree.body if isinstance(n, ast.FunctionDef)}
+    for meth in ('Spectrum._from_phi_1D_analytic', 'Spectrum._from_phi_1D_direct'):
+        if not prog.has_func('dadi.Spectrum_mod', meth):
+            continue
+        fn_ = prog.func('dadi.Spectrum_mod', meth)
+        helpers |= {c.func.id for c in ast.walk(fn_) if isinstance(c, ast.Call) and isinstance(c.func, ast.Name) and c.func.id in top_funcs}
+    rx_helpers = re.compile(r'^dadi/Spectrum_mod\.py:(%s)\b' % '|'.join(sorted(map(re.escape, helpers)))) if helpers else None
     for name, mod, rx_ in (('C02', c02, ONE_POP_C02), ('C03', c03, ONE_POP_C03), ('C04', c04, ONE_POP_C04), ('C05', c05, ONE_POP_C05), ('C07', c07, None), ('C15', c15, ONE_POP_C15)):
-        s = Scoped(rep, (lambda rule, construct, what, rx_=rx_: True if rx_ is None else bool(rx_.search(construct))))
+        extra = rx_helpers if name == 'C05' else None
+        s = Scoped(rep, (lambda rule, construct, what, rx_=rx_, extra=extra: True if rx_ is None else bool(rx_.search(construct) or (extra is not None and extra.search(construct)))))
         mod.run(s, prog, tier)
         counts[name] = s.kept
     rep.extra['scoped_reuse'] = counts
